@@ -50,7 +50,7 @@ CHECKS = {
         "engine": "pysim",
         "level_claimed": {
             "category": "exploration",
-            "text": "2-4 scripted sessions drawn from a library of ~50 literal network descriptions (API networks in kida/umist/naunet/krome formats with mixed-case and upper-case element lists, '#' and 'G' surface prefixes, grain models, rate/ODE modifiers, KROME @var/@common/@format directives; CLI projects with replacement tables, binding energies, photon yields) are interleaved step by step by a seeded scheduler in one interpreter, with foreign writers of the parser tables, simulated-clock jumps across month/year ends, aborted neighbours (corrupted file, abandoned session) and failed-and-retried steps of the victim (open failure, disk-full during render). Every rendering - first, repeated, after an edit - must be byte-identical (sha256 per file) to the rendering of the same description alone in a pristine interpreter under two other hash seeds. Sampling, not proof.",
+            "text": "Scripted sessions drawn from a library of ~100 literal network descriptions plus three systematic near twins of each (one perturbation of state that is global or shared: a coefficient, a KROME directive, a binding energy, a replacement table, int vs float bounds, list order ...) (API networks in kida/umist/naunet/krome formats with mixed-case and upper-case element lists, '#' and 'G' surface prefixes, grain models, rate/ODE modifiers, KROME @var/@common/@format directives; CLI projects with replacement tables, binding energies, photon yields) run in one interpreter in two strata: an enumerated one (every description chained with its near twins and with the members of its family, in both orders and with all networks constructed first) and a seeded one where 2-4 sessions are interleaved step by step by a seeded scheduler with foreign writers of the parser tables, simulated-clock jumps across month/year ends, aborted neighbours (corrupted file, abandoned session) and failed-and-retried steps of the victim (open failure, disk-full during render). Every rendering - first, repeated, after an edit - must be byte-identical (sha256 per file) to the rendering of the same description alone in a pristine interpreter under three reference hash seeds; the simulation itself runs under eight more. Sampling, not proof.",
             "design_ref": "DESIGN.md section 4",
         },
         "level_note": "Trusted: the same tree's own solo rendering as reference (C17 cannot say whether it is right, only whether it is the same); a forked child of a pristine post-import interpreter counts as a fresh interpreter. Victim sessions always carry explicit element lists; bare Species/Reaction constructions are atomic with installing the session's lists.",
